@@ -793,3 +793,85 @@ def roundtrip_rule(m, rid, samples=None, floor=1):
             r.fail("%s|fixpoint" % ident, "%s: %r is printed as %r, which the same class then %s: the printed tree is not accepted again to the "
                    "same text" % (cname, text, out1, "rejects" if out2 is None else "prints as %r" % (out2,)), m.class_loc(key))
     return r
+
+
+# ---------------------------------------------------------------------------------------------------------------
+# block printers: every child of a block is printed exactly once, in order
+class BTok(Tok):
+    """a statement of a block: compares by VALUE like the real nodes (two statements with the same text are equal), prints tab + text"""
+
+    def get(self, ev, name):
+        if name == "tofortran":
+            return lambda tab="", isfix=None: tab + self.text
+        return Tok.get(self, ev, name)
+
+    def __eq__(self, other):
+        return isinstance(other, BTok) and (self.tag, self.text) == (other.tag, other.text)
+
+    def __ne__(self, other):
+        return not self.__eq__(other)
+
+    def __hash__(self):
+        return hash((self.tag, self.text))
+
+
+BLOCK_PRINTERS = [
+    # (class whose tofortran is interpreted, [(child class, text), ...])
+    ("Execution_Part", [("Assignment_Stmt", "x = x + 1.0")]),
+    ("Execution_Part", [("Assignment_Stmt", "x = x + 1.0"), ("Assignment_Stmt", "n = n * 2")]),
+    ("Execution_Part", [("Assignment_Stmt", "x = x + 1.0"), ("Assignment_Stmt", "n = n * 2"), ("Assignment_Stmt", "x = x + 1.0")]),
+    ("Execution_Part", [("Call_Stmt", "CALL a"), ("Call_Stmt", "CALL a")]),
+    ("Specification_Part", [("Type_Declaration_Stmt", "INTEGER :: i"), ("Comment", "! c"), ("Type_Declaration_Stmt", "INTEGER :: i")]),
+    ("Subroutine_Subprogram", [("Subroutine_Stmt", "SUBROUTINE s"), ("Specification_Part", "INTEGER :: i"), ("Execution_Part", "i = 1"),
+                               ("End_Subroutine_Stmt", "END SUBROUTINE s")]),
+    ("Module", [("Module_Stmt", "MODULE m"), ("End_Module_Stmt", "END MODULE m")]),
+    ("Block_Nonlabel_Do_Construct", [("Nonlabel_Do_Stmt", "DO i = 1, n"), ("Assignment_Stmt", "a = 1"), ("Assignment_Stmt", "a = 1"),
+                                     ("End_Do_Stmt", "END DO")]),
+    ("Block_Label_Do_Construct", [("Label_Do_Stmt", "DO 10 i = 1, n"), ("Assignment_Stmt", "a = 1"), ("Continue_Stmt", "CONTINUE")]),
+    ("If_Construct", [("If_Then_Stmt", "IF (a) THEN"), ("Assignment_Stmt", "b = 1"), ("Else_If_Stmt", "ELSE IF (c) THEN"),
+                      ("Assignment_Stmt", "b = 1"), ("Else_Stmt", "ELSE"), ("Assignment_Stmt", "b = 1"), ("End_If_Stmt", "END IF")]),
+    ("Where_Construct", [("Where_Construct_Stmt", "WHERE (a > 0)"), ("Assignment_Stmt", "b = 1"), ("Masked_Elsewhere_Stmt", "ELSEWHERE(a < 0)"),
+                         ("Assignment_Stmt", "b = 1"), ("Elsewhere_Stmt", "ELSEWHERE"), ("Assignment_Stmt", "b = 2"), ("End_Where_Stmt", "END WHERE")]),
+    ("Case_Construct", [("Select_Case_Stmt", "SELECT CASE (k)"), ("Case_Stmt", "CASE (1)"), ("Assignment_Stmt", "b = 1"), ("Case_Stmt", "CASE (1)"),
+                        ("Assignment_Stmt", "b = 1"), ("End_Select_Stmt", "END SELECT")]),
+    ("Select_Type_Construct", [("Select_Type_Stmt", "SELECT TYPE(x)"), ("Type_Guard_Stmt", "TYPE IS (t)"), ("Assignment_Stmt", "b = 1"),
+                               ("Type_Guard_Stmt", "CLASS DEFAULT"), ("Assignment_Stmt", "b = 1"), ("End_Select_Type_Stmt", "END SELECT")]),
+    ("Derived_Type_Def", [("Derived_Type_Stmt", "TYPE :: t"), ("Data_Component_Def_Stmt", "INTEGER :: i"), ("Data_Component_Def_Stmt", "INTEGER :: i"),
+                          ("End_Type_Stmt", "END TYPE t")]),
+    ("Interface_Block", [("Interface_Stmt", "INTERFACE g"), ("Procedure_Stmt", "MODULE PROCEDURE a"), ("Procedure_Stmt", "MODULE PROCEDURE a"),
+                         ("End_Interface_Stmt", "END INTERFACE g")]),
+    ("Forall_Construct", [("Forall_Construct_Stmt", "FORALL (i = 1 : n)"), ("Assignment_Stmt", "a(i) = 0"), ("End_Forall_Stmt", "END FORALL")]),
+    ("Associate_Construct", [("Associate_Stmt", "ASSOCIATE(x => y)"), ("Assignment_Stmt", "x = 1"), ("End_Associate_Stmt", "END ASSOCIATE")]),
+]
+
+
+def block_printer_rule(m, rid):
+    r = RuleResult(rid, "the block printers (BlockBase.tofortran and its %d overrides), interpreted on %d blocks whose children are recording "
+                        "stubs that compare by value: every child is printed exactly once and in order -- also when two statements of the "
+                        "block have the same text" % (6, len(BLOCK_PRINTERS)))
+    r.floor = len(BLOCK_PRINTERS) - 2
+    world = World(m)
+    for cname, kids in BLOCK_PRINTERS:
+        key = world.classes.get(cname)
+        if key is None:
+            r.error("class %s vanished" % cname)
+            continue
+        r.instances += 1
+        content = [BTok(t, c) for c, t in kids]
+        st = Inst(world, key, {"content": content, "items": None, "string": None, "parent": None, "item": None})
+        world.ev.steps = 0
+        try:
+            out = st.get(world.ev, "tofortran")()
+        except PE.Unsupported as err:
+            r.undet("%s: %s" % (cname, err))
+            continue
+        except PE.PyRaise as err:
+            out = "raises %s" % err.exc_type
+        got = [ln.strip() for ln in str(out).split("\n")] if isinstance(out, str) else out
+        want = [t for c, t in kids]
+        ok = got == want
+        r.ob(ok, "%s: %d children printed once each" % (cname, len(kids)) if r.obligations % 4 == 0 else None)
+        if not ok:
+            r.fail("%s|block-printer|%d" % (cname, len(kids)), "%s.tofortran prints %r for the children %r: a statement of the block is dropped, "
+                   "repeated or out of order in the regenerated source" % (cname, got, want), m.class_loc(key))
+    return r
